@@ -9,6 +9,7 @@ import Dashu.Proofs.Panic.LnLoop
 import Dashu.Proofs.Panic.Utf8
 import Dashu.Proofs.Panic.Guards5
 import Dashu.Proofs.Panic.UlpSharp
+import Dashu.Proofs.Panic.InvLink
 /-
   C16 — operations terminate and panic only where the documentation says so.   PARTIAL.
 
@@ -655,5 +656,47 @@ example : documented 64 .uFromChunks (.dec (2 ^ 64 - 64) :: [0, 1].map (fun (c :
     ¬ (fromChunksLen 64 (2 ^ 64 - 64) [0, 1] > usizeMax) := by decide +kernel
 example : guardFFold [⟨2, 3, 0, 5, 'Z'⟩, ⟨2, 0, 1, 0, 'Z'⟩] = .error .infinite := by decide
 example : fListOk [⟨2, 3, 0, 5, 'Z'⟩, ⟨2, 0, 1, 0, 'Z'⟩] = true := by decide +kernel
+
+-- ------------------------------------------------------------------ round 8: `Reduced::inv` no longer "at its specification"
+
+/-- LINK to C13 (by import of `Props/C13.inv_spec`, `div_spec`): the `NonInvertible` guard of `Reduced ÷ Reduced`, which this
+    property took at the SPECIFICATION of `inv()` ("Some iff gcd(residue, modulus) = 1"), decides exactly what C13's MODELLED
+    `inv` / `/` (mirrored extended-gcd kernels, single-, double- and multi-word rings) do — every word size `W ≥ 1`, every
+    modulus the constructor accepts, every dividend `x` and divisor `b` of any sign and size. -/
+theorem reduced_div_guard_is_c13s (W id m : Nat) (hW : 0 < W) (r : Dashu.Model.NT.Ring)
+    (hr : Dashu.Model.NT.Ring.new W id m = .ok r) (x b : Int) :
+    (guardMSame W "div" m b = .ok () ↔ ((Dashu.Model.NT.reduceInt W r b).inv).isSome) ∧
+    (guardMSame W "div" m b = .error .nonInvertible ↔
+        (Dashu.Model.NT.reduceInt W r x).div W (Dashu.Model.NT.reduceInt W r b) = .error .nonInvertible) ∧
+    (guardMSame W "div" m b = .ok () ↔
+        ∃ q, (Dashu.Model.NT.reduceInt W r x).div W (Dashu.Model.NT.reduceInt W r b) = .ok q) :=
+  InvLink.inv_link W id m hW r hr x b
+
+/-- the same link stated on the DOCUMENTATION (composition with `reduced_same_ring_guard`; modulus ≠ 1 as there): the rustdoc
+    names `DivideByZero` iff C13's constructor refuses the modulus; on an accepted modulus it names `NonInvertible` iff the
+    modelled `/` ends in `NonInvertible`, and names no panic iff the modelled `/` returns a value. -/
+theorem reduced_div_documented_is_c13s (W id m : Nat) (hW : 0 < W) (hm1 : m ≠ 1) (x b : Int) :
+    (documented W .mSame [.fn "div", .int m, .int x, .int b] = some .divideByZero ↔
+        Dashu.Model.NT.Ring.new W id m = .error .divideByZero) ∧
+    (∀ r, Dashu.Model.NT.Ring.new W id m = .ok r →
+      (documented W .mSame [.fn "div", .int m, .int x, .int b] = some .nonInvertible ↔
+          (Dashu.Model.NT.reduceInt W r x).div W (Dashu.Model.NT.reduceInt W r b) = .error .nonInvertible) ∧
+      (documented W .mSame [.fn "div", .int m, .int x, .int b] = none ↔
+          ∃ q, (Dashu.Model.NT.reduceInt W r x).div W (Dashu.Model.NT.reduceInt W r b) = .ok q)) :=
+  InvLink.documented_div_link W id m hW hm1 x b
+
+/-- non-vacuity: single-word ring 12, divisor 3 — documented NonInvertible ⇒ the modelled `/` panics NonInvertible -/
+example : ∃ r, Dashu.Model.NT.Ring.new 64 0 12 = .ok r ∧
+    (Dashu.Model.NT.reduceInt 64 r 5).div 64 (Dashu.Model.NT.reduceInt 64 r 3) = .error .nonInvertible :=
+  ⟨_, rfl, ((reduced_div_documented_is_c13s 64 0 12 (by decide) (by decide) 5 3).2 _ rfl).1.1 (by decide +kernel)⟩
+/-- non-vacuity: 3-word ring 2^190+7, divisor 3 coprime, negative dividend — nothing documented ⇒ the modelled `/` returns -/
+example : ∃ r, Dashu.Model.NT.Ring.new 64 0 (2 ^ 190 + 7) = .ok r ∧ r.kind = .large ∧
+    ∃ q, (Dashu.Model.NT.reduceInt 64 r (-5)).div 64 (Dashu.Model.NT.reduceInt 64 r 3) = .ok q :=
+  ⟨_, rfl, rfl,
+   ((reduced_div_documented_is_c13s 64 0 (2 ^ 190 + 7) (by decide) (by decide) (-5) 3).2 _ rfl).2.1 (by decide +kernel)⟩
+/-- non-vacuity: modulus 0 — DivideByZero on both sides -/
+example : Dashu.Model.NT.Ring.new 64 0 0 = .error .divideByZero ∧
+    documented 64 .mSame [.fn "div", .int (0 : Nat), .int 5, .int 3] = some .divideByZero :=
+  ⟨rfl, (reduced_div_documented_is_c13s 64 0 0 (by decide) (by decide) 5 3).1.2 rfl⟩
 
 end Dashu.Props.C16
